@@ -36,6 +36,7 @@ type c09Rig struct {
 	removals  [][2]int64 // logical intervals during which a removal may be in progress
 	stop      int32
 	churned   bool // the previous plan changed membership
+	corrupt   string
 }
 
 func (r *c09Rig) tick() int64 { return atomic.AddInt64(&r.clk, 1) }
@@ -47,6 +48,21 @@ func (r *c09Rig) record(callID, backend string) {
 }
 
 func c09Respond(req *RMsg) []byte { return buildResponse(req, 200, "OK", "t", "") }
+
+// c09Body: every request carries a body that is a function of its Call-ID, so
+// that any receiver can tell whether it arrived intact.
+func c09Body(callID string) string { return strings.Repeat(callID+";", 6) }
+
+func (r *c09Rig) checkBody(m *RMsg, callID, at string) {
+	if !strings.HasPrefix(callID, "c09-") || string(m.Body) == c09Body(callID) {
+		return
+	}
+	r.mu.Lock()
+	if r.corrupt == "" {
+		r.corrupt = fmt.Sprintf("request %s arrived at %s with a body that is not the one sent: %s (sent %s)", callID, at, jsonBytes(m.Body[:min(len(m.Body), 300)]), jsonBytes([]byte(c09Body(callID))))
+	}
+	r.mu.Unlock()
+}
 
 func (r *c09Rig) udpBackend(ip string, port int) error {
 	c, err := net.ListenUDP("udp", &net.UDPAddr{IP: net.ParseIP(ip), Port: port})
@@ -68,6 +84,7 @@ func (r *c09Rig) udpBackend(ip string, port int) error {
 			}
 			id, _ := m.First(hCallID)
 			r.record(id, name)
+			r.checkBody(m, id, name)
 			es := m.Entries(hVia)
 			if len(es) == 0 {
 				continue
@@ -107,6 +124,7 @@ func (r *c09Rig) tcpBackend(ip string, port int) error {
 					}
 					id, _ := m.First(hCallID)
 					r.record(id, name)
+					r.checkBody(m, id, name)
 					c.Write(c09Respond(m))
 				}
 			}()
@@ -293,7 +311,11 @@ func (r *c09Rig) run(plan c09Plan, tag string) c09Outcome {
 			}
 			via = fmt.Sprintf("SIP/2.0/UDP %s:%d", localIP, c.LocalAddr().(*net.UDPAddr).Port)
 		}
+		var silent *patience
 		for j := 0; j < plan.PerClient; j++ {
+			if atomic.LoadInt32(&r.stop) != 0 {
+				return
+			}
 			id := fmt.Sprintf("c09-%s-%d-%d", tag, ci, j)
 			// a fixed mix of what the listeners' loops do with a message: plain
 			// load-balancing, dialog-creating INVITEs (the backend's 200 carries a
@@ -315,7 +337,13 @@ func (r *c09Rig) run(plan c09Plan, tag string) c09Outcome {
 					}
 				}
 			}
-			wire := fmt.Sprintf("%s %s SIP/2.0\r\nVia: %s;branch=z9hG4bK%s;rport\r\nFrom: <sip:c%d@client.example>;tag=f\r\nTo: %s\r\nCall-ID: %s\r\nCSeq: %d %s\r\nContent-Length: 0\r\n\r\n", method, ruri, via, id, ci, to, id, j+1, method)
+			wire := fmt.Sprintf("%s %s SIP/2.0\r\nVia: %s;branch=z9hG4bK%s;rport\r\nFrom: <sip:c%d@client.example>;tag=f\r\nTo: %s\r\nCall-ID: %s\r\nCSeq: %d %s\r\nContent-Length: %d\r\n\r\n%s", method, ruri, via, id, ci, to, id, j+1, method, len(c09Body(id)), c09Body(id))
+			if tcp && j%3 == 0 {
+				// TCP clients pipeline now and then: a companion request (not accounted
+				// for, but checked for integrity where it arrives) in the same write
+				cid := id + "-p"
+				wire = fmt.Sprintf("MESSAGE sip:svc.test SIP/2.0\r\nVia: %s;branch=z9hG4bK%s;rport\r\nFrom: <sip:c%d@client.example>;tag=f\r\nTo: <sip:svc@svc.test>\r\nCall-ID: %s\r\nCSeq: %d MESSAGE\r\nContent-Length: %d\r\n\r\n%s", via, cid, ci, cid, j+1, len(c09Body(cid)), c09Body(cid)) + wire
+			}
 			t := txn{id: id, entry: entry, want: want, s: r.tick()}
 			if err := send([]byte(wire)); err != nil {
 				setFail("client %d: send failed: %v", ci, err)
@@ -336,6 +364,31 @@ func (r *c09Rig) run(plan c09Plan, tag string) c09Outcome {
 			t.e = r.tick()
 			txns[ci] = append(txns[ci], t)
 			if !t.answer && atomic.LoadInt32(&r.stop) != 0 {
+				return
+			}
+			// a listener that has stopped relaying must not keep the plan (and the
+			// test binary) waiting for every remaining transaction: an unanswered
+			// request outside every membership change, or 30 s of running time
+			// without any answer, ends the plan at once
+			if t.answer {
+				silent = nil
+				continue
+			}
+			r.mu.Lock()
+			soft := plan.Churn && plan.FastChurn
+			for _, w := range r.removals {
+				if t.s <= w[1] && w[0] <= t.e {
+					soft = true
+				}
+			}
+			churning := plan.Churn
+			r.mu.Unlock()
+			if silent == nil {
+				silent = newPatience(30 * time.Second)
+			}
+			if (!soft && !churning) || silent.spent() {
+				setFail("client %d (listen entry %d, %s): request %s got no answer within %v and the requests before it none for 30 s: the listener no longer relays (message loop wedged or dead)", ci, entry, map[bool]string{true: "tcp", false: "udp"}[tcp], id, wait)
+				atomic.StoreInt32(&r.stop, 1)
 				return
 			}
 		}
@@ -439,6 +492,12 @@ func (r *c09Rig) run(plan c09Plan, tag string) c09Outcome {
 		dynamicHostResolver.addressResolved(r.pools[pi], []string{}, nil)
 	}
 	time.Sleep(100 * time.Millisecond)
+	r.mu.Lock()
+	if r.corrupt != "" && out.fail == "" {
+		out.fail = r.corrupt
+	}
+	r.corrupt = ""
+	r.mu.Unlock()
 	if out.fail != "" {
 		return out
 	}
@@ -496,7 +555,7 @@ func (r *c09Rig) run(plan c09Plan, tag string) c09Outcome {
 }
 
 func TestC09(t *testing.T) {
-	V.Rule("lab under the race detector: rapid draws load plans - GOMAXPROCS in {2,4,8,16}, 2-12 UDP and 1-8 TCP stop-and-wait clients spread over three listen entries of one service (shared learned-route table; UDP and TCP listeners; UDP, TCP and dynamically resolved backends), 30-250 transactions each with unique identifiers in a fixed mix (OPTIONS, dialog-creating INVITE answered with a To-tag, in-dialog INFO of an unknown dialog, MESSAGE with one of two static routes whose next hops are host-table names), backends that answer every request, optional membership churn through the resolver's addressResolved entry point, sparse (a change every 70-110 ms) or fast (every 100-400 us), at least one stable backend per listen entry, optional hammering of ByteArrayPool, ClientTransportMgr and DynamicHostResolver from three goroutines. Oracle: no race report, no fatal error or panic, every client finishes (no transaction waits more than 20 s unless a membership change was in flight), every request reached exactly one backend of the listen entry it was sent to (at most one while a change was in flight), every response returned to the client that sent the request. non-trivial = plan with >= 2 listeners receiving simultaneously and >= 1 membership change during traffic; distinct by plan")
+	V.Rule("lab under the race detector: rapid draws load plans - GOMAXPROCS in {2,4,8,16}, 2-12 UDP and 1-8 TCP stop-and-wait clients spread over three listen entries of one service (shared learned-route table; UDP and TCP listeners; UDP, TCP and dynamically resolved backends), 30-250 transactions each with unique identifiers in a fixed mix (OPTIONS, dialog-creating INVITE answered with a To-tag, in-dialog INFO of an unknown dialog, MESSAGE with one of two static routes whose next hops are host-table names), backends that answer every request, optional membership churn through the resolver's addressResolved entry point, sparse (a change every 70-110 ms) or fast (every 100-400 us), at least one stable backend per listen entry, optional hammering of ByteArrayPool, ClientTransportMgr and DynamicHostResolver from three goroutines. Oracle: no race report, no fatal error or panic, every client finishes (no transaction waits more than 20 s unless a membership change was in flight), every request reached exactly one backend of the listen entry it was sent to (at most one while a change was in flight), every response returned to the client that sent the request, every request body (a function of its Call-ID; TCP clients pipeline a companion request now and then) arrived intact. non-trivial = plan with >= 2 listeners receiving simultaneously and >= 1 membership change during traffic; distinct by plan")
 	V.Assume("schedules are sampled by the Go scheduler under the drawn plan, not enumerated: this check can expose races, never show their absence")
 	V.Require("engine:bin (-race binary under load)", "plan with fast churn", "plan with churn", "plan with hammering", ">=2 listeners in parallel", "tcp and udp clients together")
 	rig, err := newC09Rig(false)
